@@ -162,7 +162,8 @@ func run(c *vf.Ctx) {
 		"(1) per key: ParsePublicKey(blob) = reference fields, Marshal = specification blob byte for byte, NewPublicKey(crypto key).Marshal likewise, MarshalAuthorizedKey text, ParseAuthorizedKey/ParseKnownHosts of it, fingerprints = OpenSSH format over the OpenSSH blob (and = ssh-keygen -l / -E md5 when installed). " +
 		"(2) blob faults: for a representative blob of every format and certificate: every truncation, single-byte substitutions at every position (all 255 values for every byte of every length prefix incl. nested ones, {^b,b^01,b^80,00,ff} elsewhere; thorough: 255 values everywhere and every plain key), trailing bytes; ParsePublicKey must not panic, must reject what the reference grammar rejects, accept what it proves valid, and re-marshal accepted blobs consistently. " +
 		"(3) authorized_keys grammar: option lists of <=2 [thorough <=3] atoms over {flag, k=\"v\", quoted blank, quoted comma, escaped quote, literal tab in quotes, mid-word quote} + unterminated quotes x declared type {right, other format, certificate name, unknown, case-changed, suffixed, missing} x blob {valid, truncated, trailing byte, bad base64, stripped padding} x 4 key formats, and the blank/comment/leading/trailing layout product; multi-line files (all sequences of <=3 lines over 6 line kinds x LF/CRLF/no final newline); compared with sshd's procedure (reference) and with ssh-keygen -lf. " +
-		"(4) known_hosts grammar: marker x hosts x declared type x blob x comment x blanks, multi-line. (5) totality: every byte string of length <=2 [thorough <=3] into the three parsers; every single-byte deletion and substitution by {blank,tab,\",\\,comma,#,LF,@,=} of valid lines. non-trivial = distinct (key, check) resp. distinct line/fault")
+		"(4) known_hosts grammar: marker x hosts x declared type x blob x comment x blanks, multi-line. (5) totality: every byte string of length <=2 [thorough <=3] into the three parsers; every single-byte deletion and substitution by {blank,tab,\",\\,comma,#,LF,@,=} of valid lines. " +
+		"(6) hardening: caller-owned buffers — for every key and certificate: the blob/line handed to ParsePublicKey/ParseAuthorizedKey/ParseKnownHosts (4 authorized_keys layouts, 3 known_hosts layouts) is left untouched; after the caller overwrote the line buffer with the next line and parsed two other keys, the returned key/comment/options/marker/hosts are unchanged (for ParsePublicKey the blob is overwritten for rsa/dss/ecdsa/sk-ecdsa only: ed25519 keys and certificates keep sub-slices of the blob as upstream does); 3 rounds of Marshal / MarshalAuthorizedKey / both fingerprints on ONE key object with the returned slices overwritten in between. Long inputs: comment, line, quoted option, run of escaped quotes, unterminated option, bare option, wrong type name, base64 tail, host, blank run of 2^k+{-1,0,1} bytes for k in {8,12,16} [thorough +20,22], 2^k+-1 options/hosts, files with 255/256/257/4096 skipped lines of 5 kinds before the key; option atoms with a quote as first byte of the line and an escaped quote outside quotes. non-trivial = distinct (key, check) resp. distinct line/fault")
 	c.Assume("crypto/sha256, crypto/md5, math/big, crypto/elliptic curve constants are correct; ssh-keygen (when present) is OpenSSH's")
 	c.Assume("RSA/DSA number-range policy (exponent range, modulus size limits) is implementation policy: for blobs outside the known-good keys only rejection of malformed structure is demanded")
 
